@@ -150,3 +150,17 @@ reg(
     "Arrays up to size 3 and window +-2; empty ranges (hi < lo) are legal and not judged; 3-D arrays and nested "
     "component arrays are not in the alphabet.",
 )
+
+reg(
+    "C10",
+    "E4-enum",
+    "exploration",
+    "exhaustive enumeration of variable configurations (singles, ordered pairs, triples) against a reference classification",
+    "Every single configuration of variability x causality x type x der() placement (direct, inside an expression, of a "
+    "sum, only in an initial equation, on a nested component variable), every ordered pair (thorough: all pairs and "
+    "triples of the core ones) is generated; each variable must sit in exactly the list the precedence constant > "
+    "parameter > top-level input > differentiated > algebraic assigns, String ones in the string lists, one der_state "
+    "per state in matching order, declaration order within a category (names chosen so that it differs from name order), "
+    "outputs exactly the output-prefixed states/algebraics, Integer/Boolean python types kept.",
+    "Flat model plus one nested component; flow/stream prefixes and der() of parameters/constants are outside the alphabet.",
+)
